@@ -442,4 +442,3 @@ func jsonText(w *wBody, r *lib.Rand) string {
 	s, _ := jsonBodyText(w, r, true)
 	return s
 }
-
